@@ -7,7 +7,7 @@ OHeads(c) ==
   CASE c = "basic"  -> {NHead(<<3>>, <<2>>, FALSE, FALSE, NoE, "row", NoStyle), NHead(<<2, 2>>, <<2>>, FALSE, FALSE, NoE, "col", NoStyle)}
     [] c = "excl"   -> {NHead(<<3>>, <<2>>, FALSE, TRUE, DBase, "rev", NoStyle), NHead(<<2, 2>>, <<2>>, FALSE, TRUE, NoE, "row", NoStyle)}
     [] c = "shared" -> {NHead(<<3>>, <<2>>, TRUE, FALSE, NoE, "row", NoStyle), NHead(<<2, 2>>, <<2>>, TRUE, FALSE, NoE, "row", NoStyle)}
-    [] c = "atomic" -> {NHead(<<3>>, <<2>>, FALSE, FALSE, NoE, "row", NoStyle), NHead(<<4>>, <<1>>, FALSE, FALSE, NoE, "row", NoStyle)}
+    [] c = "atomic" -> {WithRow(NHead(<<3>>, <<2>>, FALSE, FALSE, NoE, "row", NoStyle)), NHead(<<4>>, <<1>>, FALSE, FALSE, NoE, "row", NoStyle)}
     [] c = "mixed"  -> {NHead(<<3>>, <<2>>, TRUE, TRUE, DBase, "row", NoStyle)}
     [] c = "tile"   -> {[NHead(<<3>>, <<2>>, FALSE, FALSE, NoE, "row", [NoStyle EXCEPT !.tile = TRUE]) EXCEPT !.limit = 5]}
 OPlans(c) ==
